@@ -163,8 +163,9 @@ fn main() {
             let pw = args.get(3).map(|s| s.as_bytes().to_vec()).unwrap_or_default();
             for cfg in walker::CONFIGS {
                 let mut o = walker::Obs::new(true);
+                let started = std::time::Instant::now();
                 let r = core::catch(|| walker::open_and_walk(&bytes, &pw, cfg, &walker::WalkOpts::default(), &mut o));
-                println!("== {} -> {:?} ({} calls)", cfg.name(), r, o.calls);
+                println!("== {} -> {:?} ({} calls, {:.2} s)", cfg.name(), r, o.calls, started.elapsed().as_secs_f64());
                 if cfg.name() == "strict-uncached" {
                     for (k, v) in &o.lines {
                         println!("{} = {}", k, core::truncate(v, 200));
